@@ -23,7 +23,7 @@ struct Less {
 	int dir = 1;
 	Less() = default;
 	explicit Less(int d) : dir(d) {}
-	bool operator()(const Node &a, const Node &b) const { if(dir != 1 && dir != -1) g_less_bad_state++; return dir < 0 ? a.key > b.key : a.key < b.key; }
+	int operator()(const Node &a, const Node &b) const { if(dir != 1 && dir != -1) g_less_bad_state++; return (dir < 0 ? a.key > b.key : a.key < b.key) ? 4 : 0; } // (truthy, but not 1: a comparator is used by its truth value)
 };
 template<typename T> static constexpr bool takes_comparator = std::is_constructible_v<T, Less>;
 
